@@ -80,12 +80,14 @@ Salts == { [nus |-> <<Q(1), Q(1)>>, zs |-> <<Q(1), Q(-1)>>, pm |-> <<400, 300>>]
            [nus |-> <<Q(2), Q(1), Q(1)>>, zs |-> <<Q(1), Q(-1), Q(-1)>>, pm |-> <<400, 300, 1200>>],
            \* fractional stoichiometry
            [nus |-> <<R(1, 2), Q(1)>>, zs |-> <<Q(2), Q(-1)>>, pm |-> <<800, 300>>] }
-ProdPts(Ks, Is, Ts, Es, Rs, Cs) ==
-    { [PBase EXCEPT !.kind = k, !.IS = i, !.T = t, !.eps = e, !.rho = r,
-                    !.C = IF k = "dap" THEN R(-3, 10) ELSE IF k = "lap" THEN QZero ELSE c,
-                    !.nus = s.nus, !.zs = s.zs, !.pm = s.pm] :
-        k \in Ks, i \in Is, t \in Ts, e \in Es, r \in Rs, c \in Cs, s \in Salts }
+(* Cs: linear coefficients of the extended product (default 0), Cds: of the Davies product (default *)
+(* -0.3; -0.2 is Davies' original value) - every optional coefficient is varied away from its default *)
+ProdCs(k, Cs, Cds) == IF k = "lap" THEN {QZero} ELSE IF k = "eap" THEN Cs ELSE Cds
+ProdPts(Ks, Is, Ts, Es, Rs, Cs, Cds) ==
+    UNION { { [PBase EXCEPT !.kind = k, !.IS = i, !.T = t, !.eps = e, !.rho = r, !.C = c,
+                            !.nus = s.nus, !.zs = s.zs, !.pm = s.pm] :
+                i \in Is, t \in Ts, e \in Es, r \in Rs, s \in Salts, c \in ProdCs(k, Cs, Cds) } : k \in Ks }
 ProdPts_q == ProdPts({"lap", "eap", "dap"}, {R(0, 1), R(1, 100), R(1, 10)}, {R(5963, 20)}, {R(392, 5)},
-                     {R(997, 1)}, {R(0, 1), R(1, 10)})
+                     {R(997, 1)}, {R(0, 1), R(1, 10)}, {R(-3, 10), R(-1, 5), R(0, 1)})
 DHPts_q == LawPts_q \cup ABPts_q \cup ProdPts_q
 =============================================================================
